@@ -62,6 +62,11 @@ ex:LS a sh:NodeShape ; sh:targetClass ex:P ;
   sh:property [ sh:path ex:n ; sh:maxInclusive 9 ] .
 """,
 }
+# sh:expression is a constraint in advanced mode only: a plain call must not see it, whatever ran before
+SHAPES["expression"] = """
+ex:XS a sh:NodeShape ; sh:targetClass ex:P ; sh:expression [ sh:path ex:flag ] ;
+  sh:property [ sh:path ex:n ; sh:maxInclusive 9 ; sh:expression [ sh:path ex:flag ] ] .
+"""
 SHAPES["usesfn"] = """
 ex:prefixes a owl:Ontology ; sh:declare [ sh:prefix "ex" ; sh:namespace "http://ex.org/"^^xsd:anyURI ] .
 ex:US a sh:NodeShape ; sh:targetClass ex:P ;
@@ -293,6 +298,15 @@ def gen_themed(rng, theme):
                 ops.append(("realloc", "S0", "shapes", SHAPES["bnodes"].replace("sh:minCount 1", "sh:minCount 2")))
         ops += maybe_fail()
         ops.append(plain())
+    elif theme == "modes":
+        # the same shapes in advanced and in plain mode, in either order, maybe with a failure in between
+        ops.append(("alloc", "S0", "shapes", SHAPES[rng.choice(["expression", "expression", "component", "bnodes"])]))
+        if rng.random() < 0.3:
+            ops.append(("call", "validate", ("slot", "D0"), ("text", PFX + SHAPES["advanced"]), None, {"advanced": True}, None))
+        for _ in range(rng.choice([2, 3])):
+            ops.append(("call", "validate", ("slot", "D0"), ("slot", "S0") if rng.random() < 0.7 else ("text", PFX + SHAPES["expression"]), None, {"advanced": rng.random() < 0.5}, None))
+            ops += maybe_fail() if rng.random() < 0.3 else []
+        ops.append(plain())
     elif theme == "globals":
         # after a failure: literals read from text, and a query naming a function nobody declared in this call
         ops += failing_call(rng)
@@ -305,7 +319,7 @@ def gen_themed(rng, theme):
     return ops
 
 
-THEMES = ["stale_data", "stale_shapes", "stale_validator", "reuse", "globals", "mixed", "mixed"]
+THEMES = ["stale_data", "stale_shapes", "stale_validator", "reuse", "globals", "modes", "mixed", "mixed"]
 
 
 def gen_history(seed, index):
